@@ -194,6 +194,11 @@ def rule_bc(ctx: Context, R: Reporter, base: ClassInfo, subs: List[ClassInfo]):
                         links = defs_of(ctx, m, nd, a.id)
                         if links and all(lk.value is not None and isinstance(lk.value, ast.Call) and (ctx.res.external_name(lk.fi, lk.value) or "") in UNI for lk in links):
                             masks.append((m, nd, a, b, flip, links))
+                    elif isinstance(a, ast.Call) and (ctx.res.external_name(m, a) or "") in UNI:
+                        # the draw written inline in the comparison: `np.random.rand(n) < alpha`
+                        from ..chain import Link
+
+                        masks.append((m, nd, a, b, flip, [Link(m, nd, a, "assign", nd.stmt)]))
     R.floor("C03.c", "accept masks (uniform vs acceptance probability)", len(masks), 1)
     for (m, nd, uni, alpha, flip, links) in masks:
         op = nd.stmt.value.ops[0]
@@ -509,7 +514,10 @@ def rule_de(ctx: Context, R: Reporter, subs: List[ClassInfo]):
     if len(props) != 1:
         raise AnalysisError(f"C03.d: expected one proposal statement with a normal draw in {m.short}, found {len(props)}")
     pn = props[0]
-    terms = signed_terms(pn.stmt.value)
+    # loop-invariant parts hoisted into locals (`centre = mu + a * diff`) are inlined before the sum is split
+    terms = signed_terms(rs.resolve(pn.stmt.value, pn))
+    if len(terms) < 3:
+        terms = signed_terms(pn.stmt.value)
     mu_t = diff_t = noise_t = None
     for (sg, t) in terms:
         rt = _attr_inline(ctx, m, rs.resolve(t, pn))
